@@ -94,7 +94,7 @@ pub fn gen_absdb(rng: &mut Rng, case: u64, cfg: &AbsCfg, force: Option<&'static 
         tags.push("overcount");
     }
     if opt(rng, "big-pool-string", 1, 12) {
-        enc.extra_big_string = 70_000;
+        enc.extra_big_string = *rng.pick(&[65_535usize, 65_536, 70_000]);
         tags.push("big-pool-string");
     }
     let clsid = *rng.pick(&[fmt_codec::CLSID_INSTALLER, fmt_codec::CLSID_PATCH, fmt_codec::CLSID_TRANSFORM]);
@@ -206,7 +206,10 @@ pub fn gen_absdb(rng: &mut Rng, case: u64, cfg: &AbsCfg, force: Option<&'static 
                         if !tags.contains(&"big-cell-string") {
                             tags.push("big-cell-string");
                         }
-                        row.push(V::Str(format!("{}{}", tok(), "L".repeat(66_000))));
+                        // around the 16-bit length escape: 65,534 / 65,535 / 65,536 bytes and well beyond
+                        let t = tok();
+                        let total = *rng.pick(&[65_534usize, 65_535, 65_535, 65_536, 66_000, 70_000]);
+                        row.push(V::Str(format!("{}{}", t, "L".repeat(total - t.len()))));
                     } else if !key && rng.chance(1, 5) && !rows.is_empty() {
                         // share a string with an earlier row / another table
                         let prev: &Vec<V> = &rows[rng.usize(rows.len())];
@@ -275,7 +278,17 @@ pub fn gen_absdb(rng: &mut Rng, case: u64, cfg: &AbsCfg, force: Option<&'static 
     }
     // summary property set
     let spage = if rng.chance(1, 3) { *rng.pick(&pages) } else { 65001 };
-    let mut props: Vec<(u32, PVal)> = vec![(1, PVal::I2(spage as u16 as i16))];
+    // the code-page property may be absent or 0 (both mean the default code page)
+    let cp_variant = rng.below(8);
+    let spage = if cp_variant < 2 { 65001 } else { spage };
+    let mut props: Vec<(u32, PVal)> = match cp_variant {
+        0 => vec![],
+        1 => vec![(1, PVal::I2(0))],
+        _ => vec![(1, PVal::I2(spage as u16 as i16))],
+    };
+    if cp_variant < 2 {
+        tags.push("summary-codepage-0-or-absent");
+    }
     let st = |rng: &mut Rng, t: &str| PVal::LpStr(cpora::encode(spage, &text(rng, spage, t, 0)));
     if rng.chance(3, 4) {
         props.push((2, st(rng, "Title")));
